@@ -905,6 +905,7 @@ theorem h2_resp_fields_preserved (isHead : Bool) (win : List Nat) (w : Wire) (n 
     valuesAt n (fwdRespH2 isHead win w).fields = valuesOf n w.fields :=
   resp_fields_preserved isHead win w n hdrop hte htr hcl hct
 
+set_option maxRecDepth 20000 in
 /-- repeated fields, mixed case on the way in, an empty value: three `X-Dup` values and `x-empty` arrive as sent -/
 example : valuesAt [120, 45, 100, 117, 112]
     (fwdReqH2 ⟨fun p => some p, id, fun _ r => r, id, fun _ => none, fun _ po _ => po⟩ [] [3]
@@ -930,10 +931,12 @@ theorem h2_pseudo_roundtrip (O : Oracles) (remote : H2Msg.Bytes) (win : List Nat
       (if pseudoGet w.pseudo nAuthority = [] then (valuesOf nHost w.fields).headD [] else pseudoGet w.pseudo nAuthority) :=
   req_pseudo_roundtrip O remote win w hesc
 
+set_option maxRecDepth 20000 in
 /-- the hypothesis is satisfiable and the statement not vacuous: `/a?x=1` with the identity oracle -/
 example : pseudoGet (fwdReqH2 ⟨fun p => some p, id, fun _ r => r, id, fun _ => none, fun _ po _ => po⟩ [] []
       { pseudo := [(nMethod, [71, 69, 84]), (nPath, [47, 97, 63, 120, 61, 49]), (nAuthority, [97])], fields := [],
         chunks := [], trailers := none, endOnHeaders := true }).pseudo nPath = [47, 97, 63, 120, 61, 49] := by decide
+set_option maxRecDepth 20000 in
 /-- negation witness for the finding on paths net/url re-escapes (`/{` → `/%7B`): the oracle result is what is forwarded -/
 example : pseudoGet (fwdReqH2 ⟨fun _ => some [47, 37, 55, 66], id, fun _ r => r, id, fun _ => none, fun _ po _ => po⟩ [] []
       { pseudo := [(nMethod, [71, 69, 84]), (nPath, [47, 123]), (nAuthority, [97])], fields := [],
@@ -975,6 +978,7 @@ theorem h2_resp_trailers_preserved (win : List Nat) (w : Wire) (n : H2Msg.Bytes)
     valuesAt n ((fwdRespH2 false win w).trailers.getD []) = valuesOf n (w.trailers.getD []) :=
   resp_trailers_preserved win w n hopen
 
+set_option maxRecDepth 20000 in
 /-- trailers after an EMPTY body (no DATA frame): forwarded as a trailer block -/
 example : (fwdRespH2 false []
       { pseudo := [(nStatus, [50, 48, 48])], fields := [], chunks := [],
@@ -996,6 +1000,7 @@ theorem h2_body_framing_independent (O : Oracles) (remote : H2Msg.Bytes) (win1 w
     (hb : w1.body = w2.body) : (fwdReqH2 O remote win1 w1).body = (fwdReqH2 O remote win2 w2).body := by
   rw [req_body_preserved O remote win1 w1 h1, req_body_preserved O remote win2 w2 h2, hb]
 
+set_option maxRecDepth 20000 in
 example : (fwdReqH2 ⟨fun p => some p, id, fun _ r => r, id, fun _ => none, fun _ po _ => po⟩ [] [2, 1]
       { pseudo := [], fields := [], chunks := [[1], [], [2, 3, 4], [5]], trailers := none, endOnHeaders := false }).chunks
     = [[1, 2], [3], [4, 5]] := by decide
@@ -1033,12 +1038,14 @@ theorem cross_h2_h1_req_fields (O : Oracles) (w : Wire) (n : H2Msg.Bytes) (hsp :
     (hck : n ≠ nCookie) (hh : n ≠ nHost) : valuesAt n (x21Req O w).fields = valuesOf n w.fields :=
   x21_req_fields O w n hsp htr hck hh
 
+set_option maxRecDepth 20000 in
 /-- repeated Set-Cookie towards HTTP/1.1 stays two fields; with a conversion through a map[string]string (the code before the
 repair, `convert false`) only the last survives -/
 example : valuesAt [115, 101, 116, 45, 99, 111, 111, 107, 105, 101]
     (x12Resp { pseudo := [(nStatus, [50, 48, 48])],
                fields := [([115, 101, 116, 45, 99, 111, 111, 107, 105, 101], [97]), ([115, 101, 116, 45, 99, 111, 111, 107, 105, 101], [98])],
                chunks := [], trailers := none, endOnHeaders := true }).fields = [[97], [98]] := by decide
+set_option maxRecDepth 20000 in
 example : (convert false [([120], [[1], [2], [3]])]) = [([120], [[3]])] := by decide
 
 /-- **HTTP/1.1 → HTTP/2: method, authority, path AND query** -/
@@ -1053,14 +1060,17 @@ theorem cross_h1_h2_pseudo (O : Oracles) (remote : H2Msg.Bytes) (win : List Nat)
     pseudoGet out.pseudo nAuthority = lower ((valuesOf nHost w.fields).headD []) :=
   x12_req_pseudo_roundtrip O remote win w hm hh hesc hq
 
+set_option maxRecDepth 20000 in
 /-- `POST /a//b?q=1` with `Host: H`: the original path (not fasthttp's normalisation `/a/b`) and the query arrive -/
 example : pseudoGet (x12Req ⟨fun p => some p, id, fun _ r => r, fun _ => [47, 97, 47, 98], fun p => some p, fun _ po _ => po⟩ [] []
       { pseudo := [(nMethod, [80, 79, 83, 84]), (nPath, [47, 97, 47, 47, 98, 63, 113, 61, 49])], fields := [(nHost, [72])],
         chunks := [], trailers := none, endOnHeaders := false }).pseudo nPath = [47, 97, 47, 47, 98, 63, 113, 61, 49] := by decide
+set_option maxRecDepth 20000 in
 /-- negation witnesses of the cross-protocol findings: an empty query's `?` is dropped, trailers do not cross HTTP/1 -/
 example : pseudoGet (x12Req ⟨fun p => some p, id, fun _ r => r, id, fun p => some p, fun _ po _ => po⟩ [] []
       { pseudo := [(nMethod, [71, 69, 84]), (nPath, [47, 97, 63])], fields := [(nHost, [72])],
         chunks := [], trailers := none, endOnHeaders := false }).pseudo nPath = [47, 97] := by decide
+set_option maxRecDepth 20000 in
 example : (x12Req ⟨fun p => some p, id, fun _ r => r, id, fun p => some p, fun _ po _ => po⟩ [] []
       { pseudo := [(nMethod, [80, 79, 83, 84]), (nPath, [47])], fields := [(nHost, [72])],
         chunks := [[1]], trailers := some [([120], [49])], endOnHeaders := false }).trailers = none := by decide
@@ -1080,6 +1090,7 @@ theorem h2_spec_holds_on_model_partial (O : Oracles) (remote : H2Msg.Bytes) (win
     specReqH2core w (fwdReqH2 O remote win w) = true :=
   MosnVerif.Lemmas.H2Spec.spec_holds_on_model O remote win w hesc hauth hp hend
 
+set_option maxRecDepth 20000 in
 /-- the hypotheses hold of a request with cookie crumbs, a repeated mixed-case field, a body in three DATA frames and
 trailers, and the full predicate (content-length clause included) holds of the model's output for it -/
 example : specReqH2
